@@ -27,7 +27,7 @@ Ev == Rec[l]
 
 Init == l = 1 /\ snap = [none |-> TRUE] /\ kind = "none"
 Next == /\ l <= Len(Rec)
-        /\ Ev.ev \in {"FInit", "Snap", "Closed", "Dropped", "Op"}
+        /\ Ev.ev \in {"FInit", "Snap", "Closed", "Dropped", "Op", "Est"}
         /\ l' = l + 1 /\ snap' = Ev /\ kind' = Ev.ev
 Spec == Init /\ [][Next]_<<l, snap, kind>>
 
@@ -66,6 +66,12 @@ FMetrics == IsSnap =>
 \* C12: workers are gone after close() / after the last handle was dropped; nothing got stuck
 FWorkersGone == (kind \in {"Closed", "Dropped"}) => snap.workers_left = 0
 FOpsComplete == (kind = "Op") => snap.completed
+
+\* C15: once the policy worker has drained its queue, the estimate of every key reflects its kept lookups
+\* (no aging reset can have happened: fewer recorded accesses than num_counters)
+EstOf(i) == LET S == { j \in 1 .. Len(snap.est) : snap.est[j][1] = i } IN IF S = {} THEN 0 ELSE snap.est[CHOOSE j \in S : TRUE][2]
+FEstimates == (kind = "Est" /\ snap.polq = 0 /\ snap.total < snap.nc) =>
+    \A j \in 1 .. Len(snap.kept) : EstOf(snap.kept[j][1]) >= (IF snap.kept[j][2] < 16 THEN snap.kept[j][2] ELSE 16)
 
 Accepted ==
     IF TLCGet("stats").diameter - 1 = Len(Rec) THEN TRUE
